@@ -56,6 +56,9 @@ impl TcpSnap {
 pub struct Extra {
     pub contexts: Vec<[u8; 8]>,
     pub rx_checksum_off: bool,
+    /// explicit routing table (otherwise: `default_route` decides about the gateway route)
+    pub routes: Option<RouteCfg>,
+    pub any_ip: bool,
 }
 
 pub struct World {
@@ -95,9 +98,16 @@ impl World {
     /// unchanged (costs two extra image computations; done on the re-executions and in replay)
     #[allow(clippy::too_many_arguments)]
     pub fn new(med: Med, ver: Ver, layout: Layout, sock: Sock, joined: bool, primed: bool, strict: bool) -> World {
+        Self::new_routed(med, ver, layout, RouteCfg::DefaultForeign, false, sock, joined, primed, strict)
+    }
+
+    /// with an explicit routing table configuration and AnyIP switch
+    #[allow(clippy::too_many_arguments)]
+    pub fn new_routed(med: Med, ver: Ver, layout: Layout, routes: RouteCfg, any_ip: bool, sock: Sock, joined: bool, primed: bool, strict: bool) -> World {
         let mut table = address_table(ver, layout);
         table.truncate(smoltcp::config::IFACE_MAX_ADDR_COUNT.max(1));
-        Self::build(med, ver, table, true, false, sock, joined, primed, strict, &Extra::default())
+        let extra = Extra { routes: Some(routes), any_ip, ..Extra::default() };
+        Self::build(med, ver, table, false, false, sock, joined, primed, strict, &extra)
     }
 
     /// IEEE 802.15.4 interface with 6LoWPAN address contexts configured
@@ -106,7 +116,7 @@ impl World {
     /// checksums in the device capabilities.
     pub fn new_lowpan_ctx(global: &Addr, contexts: &[[u8; 8]], rx_checksum_off: bool, sock: Sock, strict: bool) -> World {
         let a = addrs(Ver::V6);
-        let extra = Extra { contexts: contexts.to_vec(), rx_checksum_off };
+        let extra = Extra { contexts: contexts.to_vec(), rx_checksum_off, ..Extra::default() };
         Self::build(Med::Lowpan, Ver::V6, vec![(a.my, 64), (global.clone(), 64)], true, false, sock, false, true, strict, &extra)
     }
 
@@ -156,6 +166,24 @@ impl World {
                 errors.push("cannot add 6LoWPAN address context".into());
             }
         }
+        if let Some(cfg) = extra.routes {
+            use smoltcp::iface::Route;
+            for (prefix, plen, via, expired) in route_table(ver, cfg) {
+                let r = Route {
+                    cidr: IpCidr::new(to_ip(&prefix), plen),
+                    via_router: to_ip(&via),
+                    preferred_until: None,
+                    // expired half a second before the (fixed) clock of the table
+                    expires_at: if expired { Some(Instant::from_millis(NOW_MS - 500)) } else { None },
+                };
+                let mut full = false;
+                iface.routes_mut().update(|v| full = v.push(r).is_err());
+                if full {
+                    errors.push("routing table full".into());
+                }
+            }
+        }
+        iface.set_any_ip(extra.any_ip);
         match to_ip(&a.gw) {
             _ if !default_route => {}
             IpAddress::Ipv4(g) => {
